@@ -372,6 +372,8 @@ class Generator:
         both(R.r17_float_consts, (self.x.impl_self(impl) if impl is not None else None), log)
         if 'r18' in e.opts:
             body = R.r18_deref_self(body, log)
+        if 'fneg' in e.opts:
+            body = R.r19_float_neg(body, e.opts['fneg'], log)
         both(R.r6_int_ident, log)
         both(R.r11_for_underscore, log)
         if 'r12' in e.opts:
